@@ -2083,6 +2083,9 @@ static WBXMLError wbxml_encode_value_element_buffer(WBXMLEncoder *encoder, WB_UT
              * The encoding is done using base64 encoded images in XML, and encoding it as OPAQUE data in the WBXML. 
              * The icon is embedded using an PARM element with name ICON.
              */
+            if (encoder->current_attr == NULL)
+                break;
+
             if ((encoder->current_attr->wbxmlCodePage == 0x00) &&
                 (encoder->current_attr->wbxmlToken == 0x11)) 
             {
